@@ -43,8 +43,8 @@ PROPS = {
         "assumptions": COMMON_ASSUMPTIONS + ["remove_rows removes the rows the caller names: only the sub-sequence clause applies to it", "normalize: rows are compared as positive multiples up to 1e-12 relative (the quotients are rounded)", "duplicate detection uses the float relation relative_eq: only the direct checks (sub-sequence, set equality) apply"],
     },
     "C03": {
-        "kinds": [("H03", 1500, 48000)],
-        "rule": "one operation history on AffTree<2> (random constructor incl. partial trees; 1-6 steps weighted towards compose::<true>, infeasible_elimination and tree arithmetic); 12 fixed inputs evaluated after every step, 8 of them on decision hyperplanes; non-trivial = a pruning step with a result of at least 3 nodes or at least 3 steps; distinct by case text",
+        "kinds": [("H03", 1500, 48000), ("H01", 400, 8000)],
+        "rule": "one operation history on AffTree<2> (random constructor incl. partial trees; 1-6 steps weighted towards compose::<true>, infeasible_elimination and tree arithmetic), plus the step-by-step distillation of random networks (one in eight with weights of magnitude 2^5..2^12, where the solver's vertices fail the containment test and the repair paths are exercised); 12 fixed inputs evaluated after every step, 8 of them on decision hyperplanes; non-trivial = a pruning step with a result of at least 3 nodes or at least 3 steps; distinct by case text",
         "assumptions": COMMON_ASSUMPTIONS + ["LP answers and mirror_points results are oracles of the model; the replay feeds it the answers logged by the hooks (H1 LP log, H2 state trace); every logged Infeasible answer is checked exactly to be sound by a margin of 1e-6", "pruning is binary-only in the crate (K = 2)"],
     },
     "C04": {
@@ -53,8 +53,8 @@ PROPS = {
         "assumptions": COMMON_ASSUMPTIONS + ["LP answers and mirror_points results are oracles of the model; the replay feeds it the answers logged by the hooks (H1 LP log, H2 state trace); every logged Infeasible answer is checked exactly to be sound by a margin of 1e-6", "pruning is binary-only in the crate (K = 2)"],
     },
     "C05": {
-        "kinds": [("H05", 1500, 48000), ("C05M", 3000, 160000)],
-        "rule": "one operation history (1-8 steps, elimination/composition heavy); after every step each stored witness is checked exactly against its path polytope (1e-8 slack) and each node marked infeasible against an exact LP with margin 1e-6; kind C05M: mirror_points on random polytopes / start points / round limits against the exact model loop (normalised polytope taken from the dump, its rows checked to be the original rows divided by their Euclidean norm), returned points checked exactly against the polytope; non-trivial = at least 3 steps or a pruning step; distinct by case text",
+        "kinds": [("H05", 1500, 48000), ("C05M", 3000, 160000), ("C17R", 1500, 48000)],
+        "rule": "one operation history (1-8 steps, elimination/composition heavy); after every step each stored witness is checked exactly against its path polytope (1e-8 slack) and each node marked infeasible against an exact LP with margin 1e-6; kind C05M: mirror_points on random polytopes / start points / round limits against the exact model loop (normalised polytope taken from the dump, its rows checked to be the original rows divided by their Euclidean norm), returned points checked exactly against the polytope; kind C17R: remove_axes on trees that carry cached states (after infeasible_elimination): every cached state must be reset; non-trivial = at least 3 steps or a pruning step; distinct by case text",
         "assumptions": COMMON_ASSUMPTIONS + ["LP answers and mirror_points results are oracles of the model; the replay feeds it the answers logged by the hooks (H1 LP log, H2 state trace); every logged Infeasible answer is checked exactly to be sound by a margin of 1e-6", "pruning is binary-only in the crate (K = 2)"],
     },
     "C06": {
@@ -78,8 +78,8 @@ PROPS = {
         "assumptions": COMMON_ASSUMPTIONS + ["LP answers and mirror_points results are oracles of the model; the replay feeds it the answers logged by the hooks (H1 LP log, H2 state trace); every logged Infeasible answer is checked exactly to be sound by a margin of 1e-6", "pruning is binary-only in the crate (K = 2)"],
     },
     "C17": {
-        "kinds": [("C17", 4500, 240000)],
-        "rule": "one predefined tree per case (six activations, argmax, class characterisation, inf_norm, from_poly with/without else-branch, from_slice+compose+remove_axes), dims 1-5, random parameters incl. invalid ones; 8-13 inputs per case on and around every breakpoint / with ties; non-trivial = generator returns a tree; distinct by case text",
+        "kinds": [("C17", 4500, 240000), ("C17R", 1500, 48000)],
+        "rule": "one predefined tree per case (six activations, argmax, class characterisation, inf_norm, from_poly with/without else-branch, from_slice+compose+remove_axes; kind C17R: remove_axes alone on random trees with and without cached states), dims 1-5, random parameters incl. invalid ones; 8-13 inputs per case on and around every breakpoint / with ties; non-trivial = generator returns a tree; distinct by case text",
         "assumptions": COMMON_ASSUMPTIONS + ["hard sigmoid: the slope constant is the f64 value of 1/6 (checked to be within 2^-50 of 1/6); evaluation with it is compared up to rounding"],
     },
     "C02": {
